@@ -80,3 +80,10 @@ Definition plusEqual2D (SS AA : list nat) (fm : fmat) (basis : bm) : fmat :=
   match plusEqual2D_go SS AA basis fm with Some r => r | None => fm ++ [basis] end.
 (* src: FactoredMatrix2DOps.cpp:plusEqual(space, actions, FactoredMatrix2D &, const FactoredMatrix2D &) *)
 Definition plusEqualFM (SS AA : list nat) (fm rhs : fmat) : fmat := fold_left (plusEqual2D SS AA) rhs fm.
+
+(* src: Factored/MDP/CooperativeModel.cpp:CooperativeModel::sampleSRs — the reward part:
+   rews[i] = bases[i].values(toIndexPartial(tag, S, s), toIndexPartial(actionTag, graph_.getA(), a)) *)
+Definition sampleSRs_rewards (SS AA : list nat) (rewards : fmat) (s a : list nat) : list Q :=
+  map (fun b => bm_value SS AA b s a) rewards.
+(* src: CooperativeModel.cpp:CooperativeModel::sampleSR (reward part) / getExpectedReward *)
+Definition expectedReward (SS AA : list nat) (rewards : fmat) (s a : list nat) : Q := getValue2D SS AA rewards s a.
